@@ -124,6 +124,7 @@ def _work(payload):
     out = []
     cnt = 0
     nontriv = 0
+    hist = core.History()
     for n, src, gid, oracle in payload:
         if isinstance(src, int):
             g = B.sg(n)
@@ -144,8 +145,13 @@ def _work(payload):
         cnt += 1
         if oracle_v is not False:
             nontriv += 1
-        for msg in judge(n, ops, gid, oracle_v):
-            out.append((msg, case_of(n, ops, gid, oracle_v)))
+        msgs = judge(n, ops, gid, oracle_v)
+        case = case_of(n, ops, gid, oracle_v)
+        if msgs:
+            cj = hist.attach(case)
+            for msg in msgs:
+                out.append((msg, cj))
+        hist.add(case)
     return cnt, nontriv, out
 
 
